@@ -280,6 +280,9 @@ def thread_run(jp, rec, R, run_id):
     burst = ["$.b%d_%d[?@.x == %d]" % (run_id.__hash__() % 97, i, i) for i in range(40)]
     for t in range(T):
         mine = [(R.choice(["$[?length(@.name) == 2]", "$[?match(@.name, 'a.*')]", "$[?count(@.*) > 1]", "$[?search(@.s, 'b')]", "$[?value(@.id) == 1]"]), make_doc(R), "fresh-env")]
+        # compile storm: right after the start barrier every thread compiles many distinct new query texts on the shared environment
+        for k_ in range(24):
+            mine.append(("$.storm_%d_%d[?@.x == %d && @.y != 'q%d']" % (t, k_, k_, R.randrange(1000)), [], "list"))
         for _ in range(R.randint(6, 14)):
             r = R.random()
             if r < 0.35 and shared_texts:
